@@ -439,6 +439,40 @@ class IASolverBaseClass:  # pylint: disable=R0902
         value : float | np.ndarray
             The new power of all users.
         """
+        old_P = self._P
+        self._set_P(value)
+        if not self._is_same_power(old_P, self._P):
+            # The power-scaled precoders and the receive filters that
+            # compensate the (power dependent) equivalent channel depend on
+            # P: they must be calculated again the next time they are
+            # requested.
+            self._full_F = None
+            self._full_W_H = None
+            self._full_W = None
+
+    @staticmethod
+    def _is_same_power(P1: Optional[np.ndarray],
+                       P2: Optional[np.ndarray]) -> bool:
+        """
+        Returns True if the (internal) power values `P1` and `P2` correspond
+        to the same power of each user. A value of None is equivalent to a
+        power of 1 for every user.
+        """
+        if P1 is None and P2 is None:
+            return True
+        if P1 is None:
+            return bool(np.all(np.asarray(P2) == 1.0))
+        if P2 is None:
+            return bool(np.all(np.asarray(P1) == 1.0))
+        P1 = np.asarray(P1)
+        P2 = np.asarray(P2)
+        return P1.shape == P2.shape and bool(np.all(P1 == P2))
+
+    def _set_P(self, value: Optional[NumberOrArray]) -> None:
+        """
+        Validates `value` and stores it as the power of all users (see the
+        `P` property).
+        """
         if value is None:
             # Note that if self._P is None then the getter property will
             # return a numpy array of ones with the appropriated size.
